@@ -1,0 +1,24 @@
+//go:build verif
+
+package influxql
+
+// Contracts for the deductive checks under /verif (tool: govc).
+// This file contains comments only. Syntax: see /verif/govc/contract.go.
+
+// ---------------------------------------------------------------- C03 tables
+
+//@ func (Token).Precedence
+//@   props C03
+//@   ensures result == spec_prec(tok)
+
+//@ func (Token).isOperator
+//@   props C03
+//@   ensures result == spec_isOp(tok)
+
+//@ func IsRegexOp
+//@   props C03
+//@   ensures result == spec_isRegexOp(t)
+
+//@ lemma opsHavePrecedence [C03] forall t Token :: spec_isOp(t) ==> spec_prec(t) >= 1
+//@ lemma precOnlyForOps [C03] forall t Token :: spec_prec(t) >= 1 ==> spec_isOp(t)
+//@ lemma regexOpsAreComparisons [C03] forall t Token :: spec_isRegexOp(t) ==> spec_prec(t) == 3
